@@ -190,18 +190,54 @@ func c05Base(c *Ctx, p *Prog) {
 		var hasSlash *bool
 		for k, v := range o.Assign {
 			s := o.AtomSyms[k]
-			if s.Op == "binop" && strings.Contains(s.String(), "bytes.IndexByte") {
-				// forms: (idx < 0) or (0 <= idx)
-				vv := v
-				if s.Tok == token.LSS && s.Args[1].isConst() {
-					vv = !v
-				}
-				if s.Tok == token.LEQ && s.Args[0].isConst() {
-					vv = v
-				}
-				hasSlash = &vv
+			if s.Op != "binop" || !strings.Contains(s.String(), "bytes.IndexByte") {
+				continue
 			}
-			_ = k
+			// which values of the index (-1 = no slash, 0 = leading slash, 5 = somewhere later) take this branch?
+			kc, onLeft := s.Args[1], false
+			if s.Args[0].isConst() {
+				kc, onLeft = s.Args[0], true
+			}
+			if !kc.isConst() || kc.Const == nil || kc.Const.Kind() != constant.Int {
+				continue
+			}
+			kv, _ := constant.Int64Val(kc.Const)
+			taken := ""
+			for _, idx := range []int64{-1, 0, 5} {
+				a, b := idx, kv
+				if onLeft {
+					a, b = kv, idx
+				}
+				var t bool
+				switch s.Tok {
+				case token.LSS:
+					t = a < b
+				case token.LEQ:
+					t = a <= b
+				case token.GTR:
+					t = a > b
+				case token.GEQ:
+					t = a >= b
+				case token.EQL:
+					t = a == b
+				case token.NEQ:
+					t = a != b
+				}
+				if t == v {
+					taken += fmt.Sprint(idx) + " "
+				}
+			}
+			switch strings.TrimSpace(taken) {
+			case "0 5":
+				t := true
+				hasSlash = &t
+			case "-1":
+				f := false
+				hasSlash = &f
+			default:
+				c.Bad(R, "Base:slash-test", site, fmt.Sprintf("Base distinguishes names by the position of the first '/' in a way that is not 'present or absent' (this branch is taken for index in {%s}): a name that starts with '/' (empty base) gets the whole name back from Base while Parts reports an empty base, so .name and the decomposition disagree", strings.TrimSpace(taken)))
+				return
+			}
 		}
 		if hasSlash == nil || o.Term != "return" {
 			c.Undecided(R, "Base:atoms", site, "Base does not decide on the presence of '/'")
@@ -552,6 +588,7 @@ func c05Lookup(c *Ctx, p *Prog, R string) {
 		fmt.Sprintf("the sub-name lookup does not return the first part that has the prefix (ascending scan: %v, returns text after the prefix on a match: %v): with a repeated key /k yields a later segment's value", okFwd, okRet))
 	// -N form: only under the gomaxprocs flag, on the last part, when it starts with '-'
 	okG := false
+	suffixFirst := true
 	for _, b := range fn.Blocks {
 		ret, ok := b.Instrs[len(b.Instrs)-1].(*ssa.Return)
 		if !ok {
@@ -587,7 +624,15 @@ func c05Lookup(c *Ctx, p *Prog, R string) {
 			}
 		}
 		okG = hasFlag && hasDash && last
+		// the -N suffix wins over an explicit /gomaxprocs= segment: its return is not reachable from inside or after
+		// the scan over the parts
+		for _, lp := range naturalLoops(fn) {
+			if reachFrom(lp.Header, nil)[b] {
+				suffixFirst = false
+			}
+		}
 	}
+	c.Check(suffixFirst, R, "lookup:gomaxprocs-suffix-first", site, "the -N suffix is consulted before the parts are scanned", "the -N suffix is consulted only after the scan for an explicit /gomaxprocs= segment: for a name carrying both (Test/gomaxprocs=8-4) the explicit segment wins, so /gomaxprocs is 8 where the decomposition's -N part says 4")
 	c.Check(okG, R, "lookup:gomaxprocs-form", site, "the -N form is used only for /gomaxprocs, on the last part, when it starts with '-'", "the -N form of GOMAXPROCS is not restricted to /gomaxprocs and the last '-' part")
 	_ = constant.MakeBool
 }
